@@ -413,6 +413,11 @@ def sponge_absorb(repo, rule):
         return
     pc = [c for c in ast.walk(lp) if isinstance(c, ast.Call) and norm(c.func) == "permute" and c.args]
     sn = norm(pc[0].args[0]) if pc else "sponge"          # name of the state variable
+    if pc and not isinstance(pc[0].args[0], ast.Name):
+        # permute(<rebuilt state>): the state is the variable the result is bound to
+        par_ = getattr(pc[0], "_parent", None)
+        if isinstance(par_, ast.Assign) and len(par_.targets) == 1 and isinstance(par_.targets[0], ast.Name):
+            sn = par_.targets[0].id
     blocks = {}          # local name -> text of the block slice
     state_name = None
     permuted = 0
@@ -428,10 +433,14 @@ def sponge_absorb(repo, rule):
                 continue
             if isinstance(v, ast.Call) and norm(v.func) == "permute":
                 arg = norm(v.args[0]) if v.args else ""
-                if arg != sn or norm(t) != sn:
+                fused = bool(arg != sn and norm(t) == sn and v.args and isinstance(v.args[0], ast.BinOp) and isinstance(v.args[0].op, ast.Add))
+                # fused: sponge = permute([capacity] + (rate + block)) - the rebuilt state goes straight into the permutation
+                if not fused and (arg != sn or norm(t) != sn):
                     problems.append((s, "the permutation is not applied to the whole state in place of it"))
                 permuted += 1
-                continue
+                if not fused:
+                    continue
+                v = v.args[0]
 
             def added(comp):
                 """[x + y for (x, y) in zip(sponge[1:], block)] (either order)"""
@@ -448,7 +457,7 @@ def sponge_absorb(repo, rule):
                     return False
                 x, y = norm(g.target.elts[0]), norm(g.target.elts[1])
                 return isinstance(comp.elt, ast.BinOp) and isinstance(comp.elt.op, ast.Add) and {norm(comp.elt.left), norm(comp.elt.right)} == {x, y}
-            if isinstance(t, ast.Subscript) and norm(t) == sn + "[1:]":
+            if isinstance(t, ast.Subscript) and norm(t) == sn + "[1:]" and not (isinstance(s.value, ast.Call) and norm(s.value.func) == "permute"):
                 if added(v):
                     absorbed = True
                 else:
